@@ -14,7 +14,8 @@ CLAUSES = {
             "Report.WithAdapters": "CountsAsTrimmedOnlyIfAllRequiredFound"},
     "C10": {"Stages.DocumentedOrder": "ModifiersActInDocumentedOrder", "Seq1": "OutputEqualsComposition", "Seq2": "OutputEqualsComposition", "Name1": "NamesEqualComposition",
             "Name2": "NamesEqualComposition", "Dest": "FiltersSeeFullyModifiedRead"},
-    "C11": {"Dest": "FirstApplicableFilterWins", "Fate": "FirstApplicableFilterWins", "Occurrences": "OneDestinationPerRead"},
+    "C11": {"Dest": "FirstApplicableFilterWins", "Fate": "FirstApplicableFilterWins", "Occurrences": "OneDestinationPerRead",
+            "Occ.AtMostOnce": "OneDestinationPerRead"},
     "C05": {"PairSync": "SameCountSameOrderRecordKFromSamePair", "Dest": "PairDecision", "Seq1": "PairAdaptersBothOrNeither",
             "Seq2": "PairAdaptersBothOrNeither", "Occurrences": "PairKeptOrRedirectedAsUnit",
             "DemuxFile": "PairAdaptersSameRank", "Name1": "PairAdaptersSameRank", "Name2": "PairAdaptersSameRank",
@@ -29,7 +30,7 @@ CLAUSES = {
             "Info.MiddleIsWhatWasAligned", "Info.RcColumn",
             "Info.MiddleIsWhatWasAligned.CoordinatesOfShortenedReadOnInputRead",
             "Info.MiddleIsWhatWasAligned.PairedRevcompRowsFromR1")},
-    "C04": {"Occurrences": "EachReadExactlyOneFate", "Fate": "EachReadExactlyOneFate"},
+    "C04": {"Occurrences": "EachReadExactlyOneFate", "Fate": "EachReadExactlyOneFate", "Occ.AtMostOnce": "NeverDuplicated"},
 }
 CLAUSES["C20"] = {}
 for _side in ("Stats1.", "Stats2."):
@@ -51,7 +52,7 @@ OWNERS = {
     "shorten": {"C03", "C10"}, "zerocap": {"C03", "C10"}, "name": {"C10"},
     "orient": {"C16"}, "choice": {"C09", "C05"}, "action": {"C03"}, "adapter": {"C03", "C05", "C09", "C16"},
 }
-OBSERVATION_ONLY = {"Stages.DocumentedOrder", "Struct1", "Struct2", "PairSync", "Report.InputCount", "Report.Conservation", "Report.WrittenMatchesFiles",
+OBSERVATION_ONLY = {"Occ.AtMostOnce", "Stages.DocumentedOrder", "Struct1", "Struct2", "PairSync", "Report.InputCount", "Report.Conservation", "Report.WrittenMatchesFiles",
                     "Report.InputBasePairs", "Report.TextFateEqualsJson", "Report.MinimalEqualsJson",
                     "Demux.FileForEveryName", "Demux.MultisetEqualsPlainRun", "Info.RowForEveryInputRead",
                     "Info.MiddleIsCoordinates", "Info.QualitiesSplitAlike"}
